@@ -546,6 +546,30 @@ func ruleResetBeforeTerminal() check.Rule {
 					})
 				}
 			}
+			// a local closure that calls a reset-like closure (a wrapper that takes the mutex around it) is reset-like too
+			for changed := true; changed; {
+				changed = false
+				for v := range locals {
+					if resetLike[v] {
+						continue
+					}
+					for _, d := range m.Defs[v] {
+						lit, isLit := ast.Unparen(d.Expr).(*ast.FuncLit)
+						if d.Expr == nil || !isLit {
+							continue
+						}
+						ast.Inspect(lit.Body, func(x ast.Node) bool {
+							if call, ok := x.(*ast.CallExpr); ok {
+								if id, isID := ast.Unparen(call.Fun).(*ast.Ident); isID && resetLike[objOf(info, id)] && !resetLike[v] {
+									resetLike[v] = true
+									changed = true
+								}
+							}
+							return true
+						})
+					}
+				}
+			}
 			isDecision := func(n ast.Node) bool {
 				found := false
 				ast.Inspect(n, func(x ast.Node) bool {
